@@ -108,7 +108,7 @@ impl BlockEncoder {
                 continue;
             }
 
-            let (symbol, is_last_symbol) = symbol.as_ref().unwrap();
+            let (symbol, _is_last_symbol) = symbol.as_ref().unwrap();
 
             self.block_multiplex_index += 1;
             if symbol.is_source_symbol {
@@ -117,21 +117,28 @@ impl BlockEncoder {
 
             self.nb_pkt_sent += 1;
 
+            let payload = symbol.symbols.to_vec();
+            let esi = symbol.esi;
+            let sbn = symbol.sbn;
+            let source_block_length = block.nb_source_symbols as u32;
+
+            // This is the last packet only if every source byte has been read
+            // and no block of the interleaving window has a symbol left
             let is_last_packet = (self.source_size_transferred
                 >= self.file.object.transfer_length as usize)
-                && *is_last_symbol;
+                && self.blocks.iter().all(|block| block.is_empty());
 
             return Some(pkt::Pkt {
-                payload: symbol.symbols.to_vec(),
+                payload,
                 transfer_length: self.file.object.transfer_length,
-                esi: symbol.esi,
-                sbn: symbol.sbn,
+                esi,
+                sbn,
                 toi: self.file.toi,
                 fdt_id: self.file.fdt_id,
                 cenc: self.file.object.config.cenc,
                 inband_cenc: self.file.object.config.inband_cenc,
                 close_object: force_close_object || (self.closabled_object && is_last_packet),
-                source_block_length: block.nb_source_symbols as u32,
+                source_block_length,
                 sender_current_time: self.file.sender_current_time,
             });
         }
